@@ -164,7 +164,7 @@ func (r *RPCShareNodes) encodeResponse(e *types.Encoder) {
 func (r *RPCShareNodes) decodeResponse(d *types.Decoder) {
 	types.DecodeSliceFn(d, &r.Peers, (*types.Decoder).ReadString)
 }
-func (r *RPCShareNodes) maxResponseLen() int { return 100 * 128 }
+func (r *RPCShareNodes) maxResponseLen() int { return 8 + 100*128 }
 
 // RPCDiscoverIP requests the caller's externally-visible IP address.
 type RPCDiscoverIP struct {
